@@ -334,9 +334,10 @@ def judge(trace, rec):
         for group, key, text in probs:
             cls = "shape_declared" if group == DECLARED else "shape_cross"
             out.append(_v(cls, f"frame {i}: {text}", trace, key))
-    changed = _GUARD.changed() if _GUARD is not None else []
-    if changed:
-        out.append(_v("module_table_changed", "; ".join(changed[:3]), trace))
+    if _GUARD is not None and _GUARD.changed():
+        changed = _GUARD.changed(tables_only=True)  # memo caches / scratch state are reset, not judged here
+        if changed:
+            out.append(_v("module_table_changed", "; ".join(changed[:3]), trace))
         _GUARD.restore()
     return out
 
